@@ -111,18 +111,54 @@ Definition divider_after (c0 : N) (ops : list top) : N :=
   let '(base, n) := since_div ops c0 0 in (base + 4 * n) mod 65536.
 
 Definition is_write (o : top) : bool := match o with Tick => false | _ => true end.
-Definition is_wtima (o : top) : bool := match o with WTima _ => true | _ => false end.
 
-(* last value written to TIMA / TMA by a list of writes, if any *)
-Fixpoint last_wtima (ws : list top) (d : option N) : option N :=
+(* last value written to TIMA / TMA by a list of operations, if any *)
+Fixpoint last_wtima (ws : list top) : option N :=
   match ws with
-  | [] => d
-  | WTima v :: r => last_wtima r (Some v)
-  | _ :: r => last_wtima r d
+  | [] => None
+  | o :: r => match last_wtima r with
+              | Some v => Some v
+              | None => match o with WTima v => Some v | _ => None end
+              end
   end.
-Fixpoint last_wtma (ws : list top) (d : option N) : option N :=
+Fixpoint last_wtma (ws : list top) : option N :=
   match ws with
-  | [] => d
-  | WTma v :: r => last_wtma r (Some v)
-  | _ :: r => last_wtma r d
+  | [] => None
+  | o :: r => match last_wtma r with
+              | Some v => Some v
+              | None => match o with WTma v => Some v | _ => None end
+              end
+  end.
+
+(* The divider, the TAC bits and the sampled signal depend on the schedule alone (not on TIMA/TMA): walking a
+   schedule from divider c, TAC bits t3 and last sample smp gives their final values. *)
+Fixpoint signal_walk (ops : list top) (c t3 : N) (smp : bool) : N * N * bool :=
+  match ops with
+  | [] => (c, t3, smp)
+  | Tick :: r => let c' := (c + 4) mod 65536 in signal_walk r c' t3 (sig_of c' t3)
+  | WDiv _ :: r => signal_walk r 0 t3 smp
+  | WTac v :: r => signal_walk r c (v mod 8) smp
+  | _ :: r => signal_walk r c t3 smp
+  end.
+
+(* sig as sampled at the end of the last completed machine cycle of a schedule started at divider c0 with the
+   power-on registers (false before the first cycle ends) *)
+Definition sampled (c0 : N) (ops : list top) : bool :=
+  let '(_, _, smp) := signal_walk ops c0 0 false in smp.
+
+(* an overflow: the end of a cycle at which TIMA is incremented from FF (after a pending reload, from TMA = FF) *)
+Definition wraps (s : tspec) : bool :=
+  sig_prev s && negb (sig_of ((cnt s + 4) mod 65536) (tac3 s))
+  && ((match ph s with Zeroed => tma s | _ => tima s end) =? 255).
+
+Fixpoint overflow_count (s : tspec) (ops : list top) : N :=
+  match ops with
+  | [] => 0
+  | o :: r => (match o with Tick => b2n (wraps s) | _ => 0 end) + overflow_count (fst (tspec_step s o)) r
+  end.
+
+Fixpoint irq_count (tr : list obs) : N :=
+  match tr with
+  | [] => 0
+  | (irq, _) :: r => b2n irq + irq_count r
   end.
